@@ -283,7 +283,7 @@ def digitChar (d : Nat) : Char := Char.ofNat (48 + d)
 
 /-- decimal digits of a natural number, no leading zeros, `"0"` for 0 -/
 def natDigits (n : Nat) : List Char :=
-  if h : n < 10 then [digitChar n] else natDigits (n / 10) ++ [digitChar (n % 10)]
+  if n < 10 then [digitChar n] else natDigits (n / 10) ++ [digitChar (n % 10)]
 termination_by n
 decreasing_by omega
 
@@ -358,13 +358,9 @@ def parseExp (s : List Char) : Option Int :=
       | ds => if ds ≠ [] ∧ ds.all isDigit then some (valDigits ds : Int) else none
     else none
 
-/-- `parse_number` restricted to unit-less literals that are consumed completely:
-    `[+-]? digits? (. digits+)? ([eE] [+-]? digits+)?` with at least one digit before the exponent. -/
-def parseLit (s : List Char) : Option Lit :=
-  let (neg, s) := match s with
-    | '-' :: r => (true, r)
-    | '+' :: r => (false, r)
-    | _ => (false, s)
+/-- body of `parse_number` after the sign: `digits? (. digits+)? ([eE] [+-]? digits+)?`, at least one
+    digit before the exponent, everything consumed. -/
+def parseBody (neg : Bool) (s : List Char) : Option Lit :=
   let int := s.takeWhile isDigit
   let s := s.dropWhile isDigit
   -- `consume_natural_number` is skipped only when the next char is '.'
@@ -375,6 +371,13 @@ def parseLit (s : List Char) : Option Lit :=
     if frac = [] then none else
     (parseExp (r.dropWhile isDigit)).map fun e => { neg, int, frac, exp := e }
   | _ => (parseExp s).map fun e => { neg, int, frac := [], exp := e }
+
+/-- `parse_number` (value.rs:980) restricted to unit-less literals that are consumed completely. -/
+def parseLit (s : List Char) : Option Lit :=
+  match s with
+  | '-' :: r => parseBody true r
+  | '+' :: r => parseBody false r
+  | _ => parseBody false s
 
 /-- the double a literal denotes (`str::parse::<f64>` is correctly rounded); `-0` literals give −0 -/
 def litD (l : Lit) : Option D := D.ofExact l.value l.neg
